@@ -71,11 +71,12 @@ def _fixed_len_name(name: str, total: int = 80) -> str:
 
 
 class World:
-    def __init__(self, backend: str, tag: str):
+    def __init__(self, backend: str, tag: str, orphan_tip: bool = False):
         from datashard import create_table
         from datashard.data_structures import ManifestContent
 
         self.backend = backend
+        self.orphan_tip = orphan_tip
         self.s3w: Any = None
         ENV.reset(0)
         if backend == "local":
@@ -101,9 +102,21 @@ class World:
         first = t._get_all_data_files()[0].file_path
         with t.new_transaction() as tx:
             tx.delete_files([first])
+        st = t.storage
+        if orphan_tip:
+            # leftover of a committer that died between writing its metadata file and flipping the pointer:
+            # an uncommitted HIGHER version in which the two older snapshots are already expired.  The pointer
+            # does not name it, so it must never take part in the reachability decision.
+            ptr = st.read_file("metadata.version-hint.text").decode().strip()
+            md = json.loads(st.read_file(f"metadata/{ptr}").decode())
+            ver = int(ptr[1:ptr.index("-")])
+            cur = md["current_snapshot_id"]
+            md["snapshots"] = [x for x in md["snapshots"] if x["snapshot_id"] == cur]
+            md["snapshot_log"] = [x for x in md["snapshot_log"] if x["snapshot_id"] == cur]
+            md["last_updated_ms"] += 1
+            st.write_file(f"metadata/v{ver + 1}-0badc0de.metadata.json", json.dumps(md, indent=2).encode())
         tx0 = t.new_transaction().begin()
         tx0.append_data([row(90)])
-        st = t.storage
         some_data = [p for p in sorted(st.list_files("data"))][0]
         some_manifest = [p for p in sorted(st.list_files("metadata/manifests")) if "manifest_list_" not in p][0]
         st.write_file("data/orphan_0001.parquet", st.read_file(some_data))
@@ -429,7 +442,7 @@ class Runner:
         return oc
 
     # ---- (a) ---------------------------------------------------------------------------
-    def part_a(self) -> None:
+    def part_a(self, label: str = "a") -> None:
         rep, w = self.rep, self.w
         base = w.collect()
         j = w.judge()
@@ -451,7 +464,7 @@ class Runner:
                 if not plan.fired:
                     raise HarnessError(f"fault position {c.label()} not reached")
                 jj = w.judge()
-                oc = self.verdict("a", inp, kname, res, jj, {"call": c.label(), "call_key": [list(c.key[0]), c.key[1]],
+                oc = self.verdict(label, inp, kname, res, jj, {"call": c.label(), "call_key": [list(c.key[0]), c.key[1]],
                                                              "fault": kname, "attempts_failed": len(plan.fired)})
                 if inp in ("manifest", "inflight_listing") and kname == "fault_once" and len(rep.samples) < 4:
                     rep.sample({"backend": w.backend, "call": c.label(), "fault": kname, "outcome": oc,
@@ -524,11 +537,13 @@ class Runner:
 def worker(payload: Tuple[Any, ...]) -> Dict[str, Any]:
     part, tier, seed, backend = payload
     rep = Report(PROP, tier, seed, LEVEL)
-    w = World(backend, f"{part}-{os.getpid()}")
+    w = World(backend, f"{part}-{os.getpid()}", orphan_tip=(part == "c"))
     r = Runner(rep, w)
     try:
         if part == "a":
             r.part_a()
+        elif part == "c":
+            r.part_a(label="c")  # same fault enumeration, on a table that carries an uncommitted higher metadata version
         else:
             r.part_b()
     finally:
@@ -579,7 +594,7 @@ def collapse(fails: List[Tuple[List[Any], Dict[str, Any]]], causes: List[Tuple[L
 def run(tier: str, seed: int) -> Report:
     rep = Report(PROP, tier, seed, LEVEL)
     backends = ["local"] if tier == "quick" else ["local", "s3"]
-    pls = [(part, tier, seed, b) for b in backends for part in ("a", "b")]
+    pls = [(part, tier, seed, b) for b in backends for part in ("a", "b", "c")]
     if seed:
         pls = pls[seed % len(pls):] + pls[:seed % len(pls)]
     fails: List[Any] = []
